@@ -347,7 +347,13 @@ class LDMService:
         """
         try:
             if data_request.filter is None:
-                search_result = self.ldm_maintenance.get_all_data_containers()
+                # Unfiltered request: every stored object of the requested types
+                search_result = tuple(
+                    RequestDataObjectsReq.filter_out_by_data_object_type(
+                        self.ldm_maintenance.get_all_data_containers(),
+                        data_request.data_object_type,
+                    )
+                )
             else:
                 search_result = self.ldm_maintenance.search_data_containers(
                     data_request
